@@ -74,7 +74,7 @@ Fixpoint put_back (idx wager : Z) (ps : list pot) : list pot :=
   | p :: t =>
       let p' := mkPot (pt_level p) (pt_wager p) (pt_total p)
                       (zmap_set idx wager (pt_contribs p)) (pt_levels p) in
-      if wager <? pt_level p then p' :: t else p' :: put_back idx wager t
+      if wager <=? pt_level p then p' :: t else p' :: put_back idx wager t
   end.
 
 Definition put_back_all (cs : list (Z * Z)) (folded : list Z) (ps : list pot) : list pot :=
